@@ -146,7 +146,8 @@ class ScriptedPeer:
             # what the OS reports through error_received: port unreachable is a ConnectionError, host/net unreachable and
             # "message too long" are plain OSErrors
             errs = [ConnectionRefusedError(111, "Connection refused"), OSError(113, "No route to host"),
-                    OSError(101, "Network is unreachable"), OSError(90, "Message too long")]
+                    OSError(101, "Network is unreachable"), OSError(90, "Message too long"),
+                    TimeoutError(110, "Connection timed out")]
             self.w.loop.call_later(self._lat(k) * TICK, sock._icmp_error, errs[keyed(self.plan["latseed"], "err", k) % len(errs)])
         if outcome == "F" and sock is not None:
             self.w.loop.call_later(self._lat(k) * TICK, sock._fatal_error, OSError(101, "Network is unreachable"))
@@ -238,18 +239,20 @@ def execute(plan: dict) -> dict:
     if client is None and sends and sends[0][1] != request:
         fail("payload-differs", "transmitted bytes differ from the request")
     seq = plan["seq"]
-    error_seen = False
-    answered_at: Optional[int] = None
+    # An OS-reported error (ICMP, fatal socket error) may be propagated or may be followed by further attempts - the
+    # property does not say.  Whatever the client transmits AFTER the last error outcome is judged like the attempts of a
+    # call without errors: spacing while unanswered, the first reply returned at once.
+    start = 0
     for k, a in enumerate(atts):
         if a["outcome"] in "IF":
-            error_seen = True
-            break
-        if a["outcome"] in "RD":
+            start = k + 1
+    error_seen = start > 0
+    answered_at: Optional[int] = None
+    for k in range(start, len(atts)):
+        if atts[k]["outcome"] in "RD":
             answered_at = k
             break
-    # spacing while unanswered (only meaningful before the first error outcome)
-    limit = len(atts) if not error_seen else next(k for k, a in enumerate(atts) if a["outcome"] in "IF") + 1
-    for k in range(1, min(limit, len(atts))):
+    for k in range(start + 1, len(atts)):
         if atts[k - 1]["outcome"] in "NLB":
             # c2a latency is constant (1 tick), so arrival spacing equals transmission spacing
             gap = atts[k]["t"] - atts[k - 1]["t"]
@@ -259,7 +262,7 @@ def execute(plan: dict) -> dict:
                     k + 1, gap, k, timeout, want_gap - timeout))
     if cancelled:
         pass        # no result to judge: only the transmission bound, payload identity and the socket clause apply
-    elif not error_seen:
+    elif not error_seen or answered_at is not None:
         if answered_at is not None:
             a = atts[answered_at]
             t_reply, rb = a["replies"][0]
